@@ -44,6 +44,11 @@ namespace Givaro {
 #endif
 
 
+        if (&num == &f || &num == &m || &num == &k || &den == &f || &den == &m || &den == &k) {
+            // f, m and k are read again after num and den have been written
+            const Integer ff(f), mm(m), kk(k);
+            return ratrecon(num, den, ff, mm, kk, forcereduce, recurs);
+        }
         Integer r0, t0, r1, t1, q, u;
         r0=m;
         t0=0;
@@ -222,10 +227,11 @@ namespace Givaro {
             b = 1;
         }
         else {
-            res = ratrecon(a,b,x,m,k, forcereduce, recursive);
+            const Integer ff(f), mm(m), kk(k); // a or b may be the same object as f, m or k
+            res = ratrecon(a,b,x,mm,kk, forcereduce, recursive);
             if (recursive)
-                for( Integer newk = k + 1; (!res) && (newk<f) ; newk<<=1)
-                    res = ratrecon(a,b,x,m,newk,forcereduce, true);
+                for( Integer newk = kk + 1; (!res) && (newk<ff) ; newk<<=1)
+                    res = ratrecon(a,b,x,mm,newk,forcereduce, true);
         }
         return res;
     }
@@ -237,11 +243,12 @@ namespace Givaro {
     bool Rational::RationalReconstruction
     (Integer& a, Integer& b, const Integer& x, const Integer& m,
      const Integer& a_bound, const Integer& b_bound) {
-        Integer bound = x/b_bound;
+        const Integer bb(b_bound); // a or b may be the same object as b_bound
+        Integer bound = x/bb;
         bool res = ratrecon(a,b,x,m,
                             (bound>a_bound?bound:a_bound),
                             true, false);
-        return res && (b <= b_bound);
+        return res && (b <= bb);
     }
 
 
